@@ -13,6 +13,7 @@ from vf.hyp import drive, st
 from vf.runner import Collector
 
 ID = "C13"
+EARLY_ATTRIBUTION = True  # region predicates are cheap scans of the stored case
 LEVEL = "exploration"
 RULE = ("(i) ModelProtos/FunctionProtos obtained from grammar-generated script functions (the documented round trip) and (ii) "
         "Hypothesis-generated tensor-typed models over standard-domain operators with If/Loop bodies without scan outputs, value names "
@@ -351,7 +352,6 @@ REGIONS = {
     # use_operators=True renders Add/Sub/... as Python operators; a function (or main graph) made only of such nodes has no opset call
     # left and @script() / @script(this1) carries no default_opset: the decorator raises
     "use_operators_body_without_opset_call": lambda c: bool(c["opts"].get("use_operators")) and _operator_only_body(c),
-    "rename_option_loses_graph_inputs": lambda c: bool(c["opts"].get("rename")),
     "inline_const_drops_still_referenced_definition": lambda c: bool(c["opts"].get("inline_const")),
     "inline_const_empty_list": lambda c: bool(c["opts"].get("inline_const")) and _empty_1d_const(c),
     "if_with_unused_outputs": _dead_if,
